@@ -745,7 +745,7 @@ func (je *jetExec) checkAlias(as string, requires []*Expr, res *FuncResult, dumm
 			tn := types.TypeString(p.Type(), func(*types.Package) string { return "" })
 			if i == 0 && fn.Signature.Recv() != nil {
 				recvName = n
-			} else if tn == "ConstScalar" || tn == "*Real64" && i > 0 || tn == "*Real32" && i > 0 || tn == "Float64" && i > 0 {
+			} else if tn == "ConstScalar" || tn == "*Real64" && i > 0 || tn == "*Real32" && i > 0 || tn == "Float64" && i > 0 || tn == "Float32" && i > 0 {
 				operands = append(operands, n)
 			}
 			continue
